@@ -111,6 +111,30 @@ Theorem c06_format_table_unformat_guarded : forall p, wf_prep p = true -> forall
 Proof. exact format_table_unformat_guarded. Qed.
 Print Assumptions c06_format_table_unformat_guarded.
 
+(* DDLCompiler._prepared_index_name (CREATE INDEX / DROP INDEX): the schema-qualified index name is
+   quote(schema) "." quote(index name) ... *)
+Theorem c06_prepared_index_name_components : forall p s i text, s <> [] ->
+  prepared_index_name p true (Some s) i = Ok text ->
+  exists qs qi, quote p s = Ok qs /\ quote p i = Ok qi /\ text = qs ++ dot :: qi.
+Proof. exact prepared_index_name_components. Qed.
+Print Assumptions c06_prepared_index_name_components.
+
+(* ... so the backend reads both components back as the stored names (guard: the newline defect) ... *)
+Theorem c06_prepared_index_name_lexes_back_guarded : forall p b, wf_prep p = true -> compat p b = true ->
+  forall s i, s <> [] -> i <> [] -> bare_nl p s = false -> bare_nl p i = false ->
+  exists qs qi, prepared_index_name p true (Some s) i = Ok (qs ++ dot :: qi) /\
+                lex_sent b qs = Some (stored p b s) /\ lex_sent b qi = Some (stored p b i).
+Proof. exact prepared_index_name_lexes_back_guarded. Qed.
+Print Assumptions c06_prepared_index_name_lexes_back_guarded.
+
+(* ... and unformat_identifiers splits it into schema and index name (guard: the percent defect) *)
+Theorem c06_prepared_index_name_unformat_guarded : forall p, wf_prep p = true -> forall s i text,
+  s <> [] -> i <> [] -> prepared_index_name p true (Some s) i = Ok text ->
+  (p_esc_pct p = false \/ Forall (fun v => ~ In pct v) [s; i]) ->
+  unformat p text = Some [s; i].
+Proof. exact prepared_index_name_unformat_guarded. Qed.
+Print Assumptions c06_prepared_index_name_unformat_guarded.
+
 (* the splitter (findall of _r_identifiers) terminates on every text: the fuel of the model suffices *)
 Theorem c06_unformat_total : forall p text, unformat p text <> None.
 Proof. exact unformat_total. Qed.
@@ -146,5 +170,7 @@ Example c06_ex_paths :
   lex_sent sample_backend [34; 97; 34; 34; 37; 37; 34] = Some [97; 34; 37] /\
   lex_sent sample_backend [34; 97; 37; 98; 34] = None /\                       (* a lone percent sign: rejected by the driver *)
   lex_ident sample_backend [115; 101; 108; 101; 99; 116] = None /\
-  unformat sample_prep [34; 97; 46; 98; 34; 46; 99] = Some [[97; 46; 98]; [99]].
+  unformat sample_prep [34; 97; 46; 98; 34; 46; 99] = Some [[97; 46; 98]; [99]] /\
+  prepared_index_name sample_prep true (Some [97; 32; 98]) [105] = Ok [34; 97; 32; 98; 34; 46; 105] /\
+  prepared_index_name sample_prep false (Some [97; 32; 98]) [105] = Ok [105].
 Proof. vm_compute. repeat split; reflexivity. Qed.
